@@ -658,6 +658,8 @@ class FnTranslator:
             env.d[target.id] = (ln, sh)
             return
         if isinstance(target, (ast.Tuple, ast.List)):
+            if sh[0] == "NT":
+                sh = T(*[N for _ in NT_FIELDS[sh[1]]])
             if sh[0] != "T" or len(sh) - 1 != len(target.elts):
                 self.fail(target, f"cannot unpack a value of shape {shape_str(sh)} into {len(target.elts)} targets")
             names = []
@@ -687,6 +689,15 @@ class FnTranslator:
             if st.value is None:
                 return rest(env)
             value, targets = st.value, [st.target]
+            if isinstance(value, ast.List) and not value.elts and isinstance(st.target, ast.Name):
+                ann = ast.unparse(st.annotation)
+                elem = N
+                for nm in NT_FIELDS:
+                    if nm in ann:
+                        elem = NT(nm)
+                ln = self.fresh(st.target.id)
+                env.d[st.target.id] = (ln, L(elem))
+                return ("letp", f"{ln} : {shape_lean(L(elem))}", "[]", rest(env))
         else:
             value, targets = st.value, st.targets
         # opaque call: the assigned names become parameters of the translated function
@@ -1158,9 +1169,28 @@ class FnTranslator:
             return pre, ("pure", "[" + ", ".join(v[1] for v in vals) + "]", L(sh))
         if isinstance(node, ast.Subscript):
             return self.subscript(node, env)
+        if isinstance(node, ast.ListComp):
+            return self.listcomp(node, env)
         if isinstance(node, ast.Call):
             return self.call(node, env)
         self.fail(node, f"unsupported expression `{type(node).__name__}`")
+
+    def listcomp(self, node, env):
+        """`[e for x in xs]` (one generator, no condition): a loop that appends"""
+        if len(node.generators) != 1 or node.generators[0].ifs or node.generators[0].is_async:
+            self.fail(node, "list comprehension with several generators or a condition")
+        g = node.generators[0]
+        pre, xs = self.iterable(g.iter, env)
+        env_in = env.copy()
+        x = self.fresh("x")
+        pre_b = []
+        self.bind_target(g.target, ("atom", x, xs[2][1]), env_in, pre_b)
+        p_e, v = self.expr(node.elt, env_in)
+        acc = self.fresh("acc")
+        body = self.wrap_pre(pre_b + p_e, ("pure", f"({acc} ++ [{v[1]}])"))
+        t = self.tmp()
+        blk = ("for", xs[1], f"([] : {shape_lean(L(v[2]))})", acc, x, body)
+        return pre + [("letb", t, blk, None)], ("atom", t, L(v[2]))
 
     def attribute(self, node, env):
         # np.iinfo(np.intN).min / .max / .bits
@@ -1522,6 +1552,8 @@ class FnTranslator:
                 rp = None
                 if isinstance(a, ast.Name) and env.d.get(a.id) is not None and env.d[a.id][1][0] == "R":
                     rp = env.d[a.id][1][1]
+                elif isinstance(a, ast.Name) and env.d.get(a.id) is not None and env.d[a.id][1][0] == "NT":
+                    rp = ("nt", ("atom", env.d[a.id][0], env.d[a.id][1]))      # a named-tuple value of the caller
                 elif a is not None:
                     rp = self.record_path(a, env)
                 if rp is None:
@@ -1541,6 +1573,12 @@ class FnTranslator:
         # the callee's record attribute parameters are the caller's attributes of the record passed
         for dotted, _ln in info.rec_paths:
             root, rest_ = dotted.split(".", 1)
+            if isinstance(rec_arg[root], tuple):
+                ntv = rec_arg[root][1]
+                if rest_ not in NT_FIELDS[ntv[2][1]]:
+                    self.fail(node, f"`{f}` reads `{dotted}`, which the named-tuple argument does not have")
+                vals.append(self.nt_proj(ntv, NT_FIELDS[ntv[2][1]].index(rest_)))
+                continue
             mine = rec_arg[root] + "." + rest_
             if mine not in self.record_attrs:
                 self.record_attrs[mine] = self.param_name(mine.replace(".", "_").replace("()", ""))
